@@ -69,5 +69,20 @@ def run(pid, tier, seed, repo='/repo'):
                                  what='invalid literal compiles', input=rc['expr'], verifier_output='cargo check succeeded'))
         elif not control_ok:
             undecided.append('C16 reject case %s: the control program did not build, so a failing build says nothing' % name)
+    # finding F12: one valid LONG literal compiled alone (the property says every valid literal compiles)
+    lg = meta.get('long')
+    if lg:
+        d = os.path.join(rdir, 'long_literal')
+        os.makedirs(os.path.join(d, 'src'), exist_ok=True)
+        open(os.path.join(d, 'Cargo.toml'), 'w').write('[package]\nname = "c16-long-literal"\nversion = "0.0.0"\nedition = "2021"\n[workspace]\n[dependencies]\nbio-seq = { path = "/repo/bio-seq" }\n')
+        open(os.path.join(d, 'src', 'lib.rs'), 'w').write('use bio_seq::prelude::*;\npub fn f() -> usize { let x = %s; x.len() }\n' % lg['expr'])
+        shutil.copyfile(os.path.join(repo, 'Cargo.lock'), os.path.join(d, 'Cargo.lock'))
+        p = subprocess.run(['cargo', 'check', '--offline'], cwd=d, env=cargo_env('debug', 'target-c16-reject'), capture_output=True, text=True, timeout=900)
+        first = next((l for l in p.stderr.split('\n') if l.startswith('error')), '')
+        ev['long_literal'] = dict(symbols=lg['symbols'], bits=lg['bits'], compiles=p.returncode == 0, first_error=first[:200])
+        control_ok = any(n.get('profile') == 'debug' for n in ev['native'])
+        if p.returncode != 0 and control_ok:
+            failures.append(dict(property=pid, source='c16-long', profile='debug', obligation='c16::long_literal#a valid literal of %d IUPAC symbols (%d bits) compiles' % (lg['symbols'], lg['bits']),
+                                 what='a valid long literal does not compile', input='iupac! literal of %d symbols: %s' % (lg['symbols'], first[:200]), verifier_output=p.stderr[-800:]))
     shutil.rmtree(rdir, ignore_errors=True)
     return failures, undecided, ev
